@@ -1,28 +1,33 @@
 // C14 — A query can only read data the caller is authorized to read.
 //
-// Seam: the REAL api.QueryHandler (POST /api/v1/query, /query/estimate, /query/msgpack, /query/arrow,
-// GET /api/v1/measurements, GET /api/v1/query/:measurement, SHOW handling) behind a fiber app driven with
-// app.Test, a REAL database.DuckDB opened by database.New (which always applies the production sandbox,
-// lockdownExternalAccess, with allowed_directories = storage root + spill dir), a REAL storage.LocalBackend
-// on /dev/shm, built with -tags duckdb_arrow (the production Arrow query path). The only stub is the
+// Seam: the REAL api.QueryHandler (POST /api/v1/query, /query/estimate, /query/msgpack, GET /api/v1/measurements,
+// GET /api/v1/query/:measurement, SHOW handling) behind a fiber app driven with app.Test, a REAL
+// database.DuckDB opened by database.New (which always ends with the production sandbox,
+// lockdownExternalAccess, allowed_directories = storage root + spill dir), a REAL storage.LocalBackend on
+// /dev/shm, built with -tags duckdb_arrow (the production Arrow query path). The only stub is the
 // RBACChecker the handlers take as an interface: a RECORDER that grants `read` on database `db1` (any
-// measurement) and nothing else — the same decision the real RBACManager.matchPattern("db1", x) takes — and
-// records every (database, measurement, permission) it is asked about.
+// measurement) and nothing else — the decision the real RBACManager takes for one role
+// {database_pattern: db1, permissions: read} — and records every (database, measurement) it is asked about.
 //
 // Enumerated (never sampled): the full product
 //
-//	statement skeleton x table-position filler x decoy x database header {absent, db1, db2}
+//	statement skeleton x table-position filler x decoy x x-arc-database header {absent, db1, db2}
 //
-// of the grammar in grammar.go-like tables below (see buildGrammar); quick is a sub-product that keeps the
-// first (canonical) value of every dimension.
+// of the finite tables in grammar.go (thorough), or the product of their Core subsets (quick; the subsets
+// contain the canonical value of every dimension and are closed under "simpler value"), each statement
+// sent to /api/v1/query and /api/v1/query/estimate; plus a separate product for SHOW statements, the
+// measurement listing and GET /api/v1/query/:measurement.
 //
 // Oracle (never Arc's code): NON-INTERFERENCE. Every worker owns three stores that differ ONLY in the files
-// of the unauthorized database db2 (canary A / canary B with a different row count / db2 absent; db1 is
-// byte-identical). Every statement is sent to all three. Status code, columns, data, row_count (estimate:
-// success, estimated_rows, warning_level) must be identical, no response byte may contain a canary token,
-// and (observed with inotify on the store directories, one request at a time per store) every regular file
-// the process OPENED during the request must lie under a (database, measurement) the recorder was asked
-// about AND allowed. A statement rejected (4xx) by all three stores is fine.
+// of the unauthorized database db2 (canary A / canary B with another row count / db2 absent; db1 is
+// byte-identical). Every request goes to all three. Status code and every JSON field except wall-clock
+// noise and error text must be identical, no response byte may contain a canary token, and (observed with
+// inotify on the store directories, one request at a time per store) every regular file the process OPENED
+// during the request must lie under a (database, measurement) the recorder was asked about AND allowed.
+// A statement rejected (4xx) by all three stores is fine.
+//
+// Violations are minimised inside the grammar (grid.reduce) and reported per class:
+// <oracle kind>|<dimensions that differ from the canonical statement>|<minimal SQL>.
 package main
 
 import (
@@ -726,9 +731,6 @@ func main() {
 		}
 	}
 	g.eps = []string{"/api/v1/query", "/api/v1/query/estimate"}
-	if !run.Quick() {
-		g.eps = append(g.eps, "/api/v1/query/msgpack")
-	}
 	size := len(g.sk) * len(g.fl) * len(g.dc) * len(headers)
 	g.verdict = make([][]uint8, len(g.eps))
 	for e := range g.verdict {
@@ -824,14 +826,10 @@ func main() {
 						}
 						nStmt++
 						idx := g.at(u.s, u.f, d, h)
-						anyExec := false
 						for e := range g.eps {
 							r, ok := g.request(e, u.s, u.f, d, h)
 							if !ok {
 								continue
-							}
-							if e >= 2 && !anyExec {
-								continue // msgpack: only statements some store executed
 							}
 							if e == 1 && run.Quick() && d != 0 {
 								continue // quick sub-product: the estimate endpoint sees the decoy-free statements
@@ -841,7 +839,6 @@ func main() {
 							nEval++
 							hist[fmt.Sprintf("%s %d/%d/%d", g.eps[e][len("/api/v1/"):], j.Statuses[0], j.Statuses[1], j.Statuses[2])]++
 							if j.Executed {
-								anyExec = true
 								hs := fnv.New64a()
 								hs.Write([]byte(r.Method + r.Path + "\x00" + r.Header + "\x00" + r.SQL + r.Where))
 								local[hs.Sum64()] = struct{}{}
@@ -987,7 +984,7 @@ func main() {
 	run.Coverage["statements"] = int(statements)
 	run.Coverage["distinct_nontrivial"] = len(distinct)
 	run.Coverage["executed_evaluations"] = int(executed + nListExec)
-	run.Coverage["rule"] = "full product skeleton x table-position filler x decoy x x-arc-database header {absent, db1, db2} (combinations whose decoy has no slot in the skeleton are not part of the grammar), each statement sent to /api/v1/query and /query/estimate (thorough: also /query/arrow and /query/msgpack when some store executed it) of three stores that differ only in db2's files; plus the SHOW / measurement-listing / GET query product. One evaluation = one (statement, endpoint) judged on all three stores. A case is non-trivial when at least one store let it through validation and RBAC (status not 4xx), i.e. DuckDB or the storage lister actually ran; distinct = distinct (method, path, header, SQL)."
+	run.Coverage["rule"] = "full product skeleton x table-position filler x decoy x x-arc-database header {absent, db1, db2} (combinations whose decoy has no slot in the skeleton are not part of the grammar), each statement sent to /api/v1/query and /api/v1/query/estimate (quick: estimate only for the decoy-free statements) of three stores that differ only in db2's files; plus the SHOW / measurement-listing / GET query product. One evaluation = one (statement, endpoint) judged on all three stores. A case is non-trivial when at least one store let it through validation and RBAC (status not 4xx), i.e. DuckDB or the storage lister actually ran; distinct = distinct (method, path, header, SQL)."
 	run.Coverage["dimensions"] = map[string]int{"skeletons": len(g.skSel), "fillers": len(g.flSel), "decoys": len(g.dcSel), "headers": len(headers), "endpoints": len(g.eps), "listing_requests": int(nList), "catalog_table_functions": len(catalog)}
 	run.Coverage["status_histogram_A/B/N"] = statusHist
 	run.Coverage["raw_violations"] = rawViol
@@ -997,6 +994,7 @@ func main() {
 	run.Coverage["samples"] = samples.List()
 	run.Assume("the RBAC decision is a recording stub of the RBACChecker interface granting read on database db1 only (the decision RBACManager takes for one role {database_pattern db1, read}); C20 owns the real manager")
 	run.Assume("file reads are observed with inotify (IN_OPEN/IN_ACCESS) on every directory of the store; a read served entirely from a DuckDB cache without opening the file would only be caught by the non-interference comparison")
+	run.Assume("POST /api/v1/query/arrow is not driven: fiber's app.Test cannot reliably read its trailer-carrying stream; it runs the same ValidateSQLRequest / SHOW / checkQueryPermissions / getTransformedSQL gate sequence as the endpoints that are driven")
 	run.Assume("single statements only: multi-request attacks that first create catalog objects (CREATE VIEW/MACRO/TEMP TABLE are not on the denylist) are outside the quantifier; LocalBackend only")
 	if len(run.Coverage["samples"].([]any)) == 0 {
 		run.Coverage["samples"] = []any{"none"}
